@@ -289,7 +289,7 @@ func Shrink(x any) []any {
 			}
 		}
 	}
-	for p := range sc.Initial {
+	for _, p := range core.SortedKeys(sc.Initial) {
 		n := cp()
 		delete(n.Initial, p)
 		out = append(out, n)
@@ -756,19 +756,22 @@ func (a *adm) judge() {
 			eitherInvalid[string(inboundSeen(a, id))] = true
 		}
 	}
-	for s, n := range wantInvalid {
+	for _, s := range core.SortedKeys(wantInvalid) {
+		n := wantInvalid[s]
 		if gotInvalid[s] != n {
 			res.Fail("D1", "invalid-not-reported", "a message of %d octets that cannot be handled was received %d time(s) but reported to MsgInvalidFunc %d time(s): %x", len(s), n, gotInvalid[s], trunc(s))
 			return
 		}
 	}
-	for s, n := range gotInvalid {
+	for _, s := range core.SortedKeys(gotInvalid) {
+		n := gotInvalid[s]
 		if wantInvalid[s] != n && !eitherInvalid[s] {
 			res.Fail("D1", "invalid-unexpected", "MsgInvalidFunc was called %d time(s) (expected %d) for %d octets: %x", n, wantInvalid[s], len(s), trunc(s))
 			return
 		}
 	}
-	for id, e := range want {
+	for _, id := range core.SortedKeys(want) {
+		e := want[id]
 		got := a.handled[id]
 		reps := replies[id]
 		count := func(rcode int) int {
@@ -854,13 +857,14 @@ func (a *adm) judge() {
 			}
 		}
 	}
-	for id := range replies {
+	for _, id := range core.SortedKeys(replies) {
 		if want[id] == nil {
 			res.Fail("D2", "reply-with-foreign-id", "the server wrote a reply with id %d that matches no received message", id)
 			return
 		}
 	}
-	for id, n := range a.handled {
+	for _, id := range core.SortedKeys(a.handled) {
+		n := a.handled[id]
 		if want[id] == nil && n > 0 {
 			res.Fail("D1", "handler-unknown-message", "handler ran for id %d which matches no received message", id)
 			return
@@ -1122,7 +1126,8 @@ func runMux(sc *Scenario, res *core.Result, verbose bool) (hist []porcupine.Oper
 		r.hs[i] = idHandler{r, i}
 	}
 	initial = map[string]int{}
-	for p, h := range sc.Initial {
+	for _, p := range core.SortedKeys(sc.Initial) { // two spellings of one name may both be there: the order decides
+		h := sc.Initial[p]
 		r.mux.Handle(p, &r.hs[h])
 		initial[oracle.Canon(p)] = h
 	}
